@@ -168,10 +168,47 @@ func (r *Runner) exec(a Action) {
 		}
 		r.reapDead()
 		for i := range r.ids {
-			r.restart(i)
+			if !r.neverStarted(i) {
+				r.restart(i)
+			}
 		}
 		r.feat("restart-all")
+	case "join":
+		// a fresh server (empty disk) is started and added by the leader;
+		// optionally its log store fails once while it is being caught up
+		m := -1
+		for i := range r.ids {
+			if r.P.Suffrage[i] == 2 && r.neverStarted(i) {
+				m = i
+				break
+			}
+		}
+		_, L := r.leader()
+		if m < 0 || L == nil {
+			return
+		}
+		if a.Arg > 0 {
+			dec := sim.DoError
+			if a.Arg >= 3 {
+				dec = sim.DoCrashAfter
+			}
+			w.Mu.Lock()
+			r.faults = append(r.faults, &faultSpec{srv: r.ids[m], site: "StoreLogs", nth: min(a.Arg, 2), dec: dec})
+			w.Mu.Unlock()
+			r.feat("fault-armed")
+		}
+		r.start(m)
+		kind := "addvoter"
+		if a.N%2 == 1 {
+			kind = "addnonvoter"
+		}
+		r.doMembership(L, kind, m, 0)
+		r.feat("fresh-server-joins")
 	case "addvoter", "addnonvoter", "demote", "remove":
+		if m := a.N % len(r.ids); (a.Op == "addvoter" || a.Op == "addnonvoter") && r.neverStarted(m) {
+			r.start(m)
+			r.feat("fresh-server-joins")
+		}
 		if in := r.live(r.resolve(a.Srv)); in != nil {
 			var prev uint64
 			switch a.Arg {
